@@ -47,6 +47,7 @@ typedef struct { uint32_t a0, b0, c0, d0; } MD5; /* member list checked against 
 #define C10_LEN_BYTE(size, j) C10_MD_LEN_BYTE_LE(size, j)
 #define C10_SCHED_OK 1
 #define C10_SCHED_REQ 1
+#define C10_STEPS_DONE (g_r == 64) /* all 64 operations of RFC 1321 */
 #elif C10_ALG == 2
 typedef struct { uint32_t h[5]; } SHA1;
 #define C10_T SHA1
@@ -62,6 +63,7 @@ typedef struct { uint32_t h[5]; } SHA1;
 #define C10_IV3 C10_SHA1_H3
 #define C10_IV4 C10_SHA1_H4
 #define C10_NSCHED 80
+#define C10_STEPS_DONE (g_r == 80) /* t = 0..79 */
 #elif C10_ALG == 3
 typedef struct { uint32_t h[8]; } SHA256;
 #define C10_T SHA256
@@ -80,6 +82,7 @@ typedef struct { uint32_t h[8]; } SHA256;
 #define C10_IV6 0x1f83d9abu
 #define C10_IV7 0x5be0cd19u
 #define C10_NSCHED 64
+#define C10_STEPS_DONE (g_r == 64 && g_r2 == 8) /* t = 0..63, then all 8 words of H */
 #else
 #error "C10_ALG must be 1, 2 or 3"
 #endif
@@ -143,12 +146,23 @@ _Bool g_load_ok, g_sched_ok, g_iv_ok;
 
 #define C10_GHOST_SCRATCH g_T1, g_T2, g_xk, g_s, g_ti, g_Mj, g_r, g_r2, g_load_ok, g_sched_ok, g_w0, g_wa, g_wb, g_wc, g_wd
 
+#if C10_ALG == 3
+/* helper of the SHA-256 code: FIPS 180-4 ROTR^n(x) for 0 < n < 32 (the block proof inlines the real body) */
+static inline uint32_t rotate_right(uint32_t x, uint8_t bits)
+__CPROVER_requires(bits >= 1 && bits <= 31)
+__CPROVER_ensures(__CPROVER_return_value == C10_SHA_ROTR(x, bits))
+__CPROVER_assigns();
+#endif
+
 void C10_PB(C10_T* self, const void* C10_BLK)
 __CPROVER_requires(C10_PB_PTRS(self, C10_BLK))
 __CPROVER_requires(C10_STATE_EQ(self))
 __CPROVER_requires(C10_SCHED_REQ)
 __CPROVER_ensures(C10_STATE_EQ(self))
 __CPROVER_ensures(C10_SCHED_OK)
+/* the specification run is complete: the ghost steps are driven by the loops of the code, so their number is part of
+ * the postcondition (a loop that stops early would otherwise stop the specification with it) */
+__CPROVER_ensures(C10_STEPS_DONE)
 __CPROVER_ensures(g_nblk == __CPROVER_old(g_nblk) + 1)
 __CPROVER_ensures(((g_k >> 6) == __CPROVER_old(g_nblk)) ==> g_seen == ((const uint8_t*)C10_BLK)[g_k & 63])
 __CPROVER_ensures(((g_k >> 6) != __CPROVER_old(g_nblk)) ==> g_seen == __CPROVER_old(g_seen))
